@@ -237,10 +237,12 @@ class _AndFilterToSqlWhere:
             if case_sensitive is None:
                 case_sensitive = not bool(desc_filter.value.islower())
 
-            like_arg = f"%{desc_filter.value}%".replace("_", "\\_")
+            like_arg = f"%{_escape_like(desc_filter.value)}%"
             op_arg: Any
             if case_sensitive:
-                cond = sql.Note.body.like(like_arg)  # type: ignore[attr-defined]
+                cond = sql.Note.body.like(  # type: ignore[attr-defined]
+                    like_arg, escape="\\"
+                )
                 subquery = select(sql.Note.id, sql.Note.body).where(cond)
                 id_list: list[int] = []
                 for ID, body in self.session.exec(subquery).all():
@@ -279,7 +281,12 @@ class _AndFilterToSqlWhere:
                 if file_filter.negated
                 else sql.Page.path.like  # type: ignore[attr-defined]
             )
-            and_conds.append(like_op(file_filter.path_glob.replace("*", "%")))
+            and_conds.append(
+                like_op(
+                    _escape_like(file_filter.path_glob).replace("*", "%"),
+                    escape="\\",
+                )
+            )
         return and_(and_conds[0], *and_conds[1:])
 
     @_to_sql_where_helper
@@ -302,7 +309,7 @@ class _AndFilterToSqlWhere:
             subquery = base_subquery.where(
                 or_(
                     sql.Link.name == link_name,
-                    like_op(f"{link_name}#%"),
+                    like_op(f"{_escape_like(link_name)}#%", escape="\\"),
                     *_global_link_conds(notes_in_file),
                     *_ref_link_conds(notes_in_file),
                     *_zid_link_conds(notes_in_file),
@@ -350,6 +357,16 @@ def _zid_link_conds(notes: Iterable[sql.Note]) -> list[ColumnElement]:
     for note in notes:
         conds.append(cast(ColumnElement, sql.Link.name == f"zid:{note.zid}"))
     return conds
+
+
+def _escape_like(value: str) -> str:
+    """Escapes the characters that are special inside of a LIKE pattern.
+
+    The returned pattern MUST be used with the backslash escape character.
+    """
+    return (
+        value.replace("\\", "\\\\").replace("%", "\\%").replace("_", "\\_")
+    )
 
 
 def _noop(value: _T) -> _T:
